@@ -295,9 +295,13 @@ def r4_caches_and_bedgraph(ctx):
                "between records)", not cols, u(a), key=f"C09-R4|gap-filled|{u(a.targets[0])}|{sym.canon(a.value)[:60]}")
 
 
+from ..through_time import make_rule as _mk_tt
+_through_time = _mk_tt("C09")
+
 RULES = [
     ("C09-R1", r1_symbolic_lengths),
     ("C09-R2", r2_dense_expansion),
     ("C09-R3", r3_forwarding),
     ("C09-R4", r4_caches_and_bedgraph),
+    ("C09-T1", _through_time),
 ]
